@@ -113,6 +113,10 @@ func (e *Enc) call(f *frame, c *ssa.CallCommon, instr *ssa.Call, pos token.Pos) 
 	if fn, ok := e.val(c.Value).(Fn); ok && fn.F != nil {
 		return e.callStatic(f, fn.F, args, fn.Bind, pos, pack, freshResults)
 	}
+	if sel, ok := e.val(c.Value).(FnSel); ok {
+		// the variable holds one of two known functions: case split
+		return e.callSel(f, sel, args, pos, pack, freshResults)
+	}
 	e.abstract("dynamic-call")
 	e.havocAll("dynamic call")
 	return freshResults("dyn")
@@ -841,4 +845,36 @@ func (e *Enc) funcResult(con *Contract, display string, i int, rt types.Type, ar
 		e.inputs = append(e.inputs, InputVar{Name: "uf:" + display, Kind: "int", Bits: sortWidth(ls[0].Sort), Expr: t.S})
 	}
 	return e.rebuild(rt, func() T { return e.def("fr", t) })
+}
+
+
+func (e *Enc) callSel(f *frame, sel FnSel, args []Val, pos token.Pos, pack func([]Val) Val, freshResults func(string) Val) Val {
+	before := e.cur.clone()
+	saved := e.reach
+	one := func(v Val, cond T) (Val, *State, T) {
+		e.cur = before.clone()
+		e.reach = e.def("selreach", and(saved, cond))
+		var r Val
+		switch x := v.(type) {
+		case Fn:
+			r = e.callStatic(f, x.F, args, x.Bind, pos, pack, freshResults)
+		case FnSel:
+			r = e.callSel(f, x, args, pos, pack, freshResults)
+		default:
+			e.abstract("dynamic-call")
+			e.havocAll("dynamic call")
+			r = freshResults("dyn")
+		}
+		// the continuation is reached only where the callee returned normally
+		return r, e.cur, e.reach
+	}
+	ra, sa, reachA := one(sel.A, sel.C)
+	rb, sb, reachB := one(sel.B, not(sel.C))
+	reach, st := e.mergeStates([]edgeIn{{cond: reachA, st: sa}, {cond: reachB, st: sb}}, "sel")
+	e.cur = st
+	e.reach = reach
+	if ra == nil || rb == nil {
+		return ra
+	}
+	return e.nameVal(e.iteVal(reachA, ra, rb), "selres")
 }
